@@ -1,17 +1,486 @@
-import CuqiVerif.Model.C04
-import CuqiVerif.Proofs.RExpr
-import Mathlib.Tactic.Ring
+import CuqiVerif.Proofs.C04
+import Mathlib.Probability.Distributions.Gaussian.Real
+import Mathlib.Probability.Distributions.Cauchy
+import Mathlib.Probability.Distributions.Gamma
+import Mathlib.Probability.Distributions.Beta
+import Mathlib.MeasureTheory.Constructions.Pi
+import Mathlib.MeasureTheory.Integral.IntervalIntegral.Basic
+import Mathlib.LinearAlgebra.Matrix.NonsingularInverse
+import Mathlib.Analysis.SpecialFunctions.Pow.Real
+import Mathlib.Analysis.Matrix.Spectrum
+import Mathlib.Analysis.Matrix.PosDef
 
 /-!
-# C04 — property theorems (work in progress)
+# C04 — log-densities are the documented normalised densities in every parameterisation
+
+All theorems are about the definitions of `Model/C04.lean` that the driver executes: the component
+formulas (`normalLogpdf`, `gammaLogpdf`, … as `RExpr`, interpreted over ℝ by `RExpr.eval` where the
+driver uses `RExpr.evalFloat`), the assembly functions (`iid`, `slCode`, `uniformVolCode`,
+`cdfCombine`, `quadForm`, `normSqR`, `gramOf`, `canon`, … — generic in the scalar type, here at ℝ/ℚ).
+`env4 x a b c` is the environment of one component (`var 0 = x`, parameters `var 1..3`).
+
+Sections: 1 independence (product of component densities) · 2 per-family documented density and
+normalisation · 3 code-faithful negative results (SmoothedLaplace scalar scale, Uniform one-element
+arrays, MHN getters, Cauchy cdf) · 4 cdf combination rule · 5 Gaussian parameterisations ·
+6 Markov random fields · 7 un-normalised vs normalised.
 -/
+open Finset MeasureTheory ProbabilityTheory Matrix
 namespace CuqiVerif.C04
 open CuqiVerif RExpr
 
-/-- **Un-normalised vs normalised Gaussian log-density differ by a constant in the variable.** -/
+/-! ## 1. independence -/
+
+/-- **The i.i.d. log-density is the log of the product of the component densities**, for every
+    component formula, every dimension and every broadcast pattern of the parameters. -/
+theorem iid_exp_eq_prod (comp : RExpr) (x : List ℝ) (ps : List (List ℝ)) :
+    Real.exp (iid eval 0 comp x ps)
+      = ∏ j ∈ range (bcLen x ps), Real.exp (eval (env 0 x ps j) comp) := by
+  unfold iid
+  rw [exp_sumTo]
+
+example : bcLen [(1:ℝ), 2, 3] [[0], [1, 2, 3]] = 3 := by decide
+
+/-! ## 2. per-family: documented density, normalisation -/
+
+theorem normal_exp_logpdf (x m s : ℝ) (hs : 0 < s) :
+    Real.exp (eval (env4 x m s 0) (normalLogpdf (var 0) (var 1) (var 2)))
+      = gaussianPDFReal m (Real.toNNReal (s ^ 2)) x := by
+  simp only [normalLogpdf, gaussianPDFReal, eval_sub, eval_neg, eval_log, eval_mul, eval_sqrt, eval_pi,
+    eval_ofNat, eval_div, eval_pow, eval_var, env4_0, env4_1, env4_2, Real.coe_toNNReal _ (sq_nonneg s),
+    Nat.cast_ofNat, Nat.cast_one]
+  have h2pi : (0:ℝ) < 2 * Real.pi := by positivity
+  have hsq : Real.sqrt (2 * Real.pi * s ^ 2) = s * Real.sqrt (2 * Real.pi) := by
+    rw [Real.sqrt_mul h2pi.le, Real.sqrt_sq hs.le]; ring
+  rw [hsq, Real.exp_sub, Real.exp_neg, Real.exp_log (by positivity), div_eq_mul_inv, ← Real.exp_neg]
+  congr 2
+  field_simp
+
+theorem normal_integral_eq_one (m s : ℝ) (hs : 0 < s) :
+    ∫ x, Real.exp (eval (env4 x m s 0) (normalLogpdf (var 0) (var 1) (var 2))) = 1 := by
+  simp_rw [normal_exp_logpdf _ m s hs]
+  refine integral_gaussianPDFReal_eq_one m ?_
+  simp only [ne_eq, Real.toNNReal_eq_zero, not_le]
+  positivity
+
+theorem normal_pdf_eq_exp_logpdf (x m s : ℝ) (hs : 0 < s) :
+    eval (env4 x m s 0) (normalPdf (var 0) (var 1) (var 2))
+      = Real.exp (eval (env4 x m s 0) (normalLogpdf (var 0) (var 1) (var 2))) := by
+  simp only [normalLogpdf, normalPdf, eval_sub, eval_neg, eval_log, eval_mul, eval_sqrt, eval_pi, eval_exp,
+    eval_ofNat, eval_div, eval_pow, eval_var, env4_0, env4_1, env4_2, Nat.cast_ofNat, Nat.cast_one]
+  rw [Real.exp_sub, Real.exp_neg (Real.log _), Real.exp_log (by positivity), Real.exp_neg]
+  field_simp
+
+theorem laplace_exp_logpdf (x l s : ℝ) (hs : 0 < s) :
+    Real.exp (eval (env4 x l s 0) (laplaceLogpdf (var 0) (var 1) (var 2)))
+      = 1 / (2 * s) * Real.exp (-(|x - l| / s)) := by
+  simp only [laplaceLogpdf, eval_sub, eval_log, eval_abs, eval_ofNat, eval_div, eval_var, env4_0, env4_1, env4_2,
+    Nat.cast_ofNat, Nat.cast_one]
+  rw [Real.exp_sub, Real.exp_log (by positivity), Real.exp_neg]
+  field_simp
+
+theorem cauchy_exp_logpdf (x l s : ℝ) (hs : 0 < s) :
+    Real.exp (eval (env4 x l s 0) (cauchyLogpdf (var 0) (var 1) (var 2)))
+      = cauchyPDFReal l (Real.toNNReal s) x := by
+  simp only [cauchyLogpdf, cauchyPDFReal_def', eval_neg, eval_log, eval_mul, eval_pi, eval_add, eval_ofNat, eval_div,
+    eval_pow, eval_sub, eval_var, env4_0, env4_1, env4_2, NNReal.coe_inv, Real.coe_toNNReal _ hs.le, Nat.cast_one]
+  rw [Real.exp_neg, Real.exp_log (by positivity)]
+  rw [mul_inv, mul_inv]
+
+theorem cauchy_integral_eq_one (l s : ℝ) (hs : 0 < s) :
+    ∫ x, Real.exp (eval (env4 x l s 0) (cauchyLogpdf (var 0) (var 1) (var 2))) = 1 := by
+  simp_rw [cauchy_exp_logpdf _ l s hs]
+  refine integral_cauchyPDFReal_eq_one l ?_
+  simp only [ne_eq, Real.toNNReal_eq_zero, not_le]
+  exact hs
+
+theorem gamma_exp_logpdf (x a r : ℝ) (hx : 0 < x) (ha : 0 < a) (hr : 0 < r) :
+    Real.exp (eval (env4 x a (1 / r) 0) (gammaLogpdf (var 0) (var 1) (var 2))) = gammaPDFReal a r x := by
+  simp only [gammaLogpdf, gammaPDFReal, if_pos hx.le, eval_sub, eval_log, eval_mul, eval_lgamma, eval_ofNat, eval_div,
+    eval_var, env4_0, env4_1, env4_2, Nat.cast_one]
+  have hG := Real.Gamma_pos_of_pos ha
+  have hrhs : 0 < r ^ a / Real.Gamma a * x ^ (a - 1) * Real.exp (-(r * x)) := by positivity
+  have hl : Real.log (r ^ a / Real.Gamma a * x ^ (a - 1) * Real.exp (-(r * x)))
+      = a * Real.log r - Real.log (Real.Gamma a) + (a - 1) * Real.log x - r * x := by
+    rw [Real.log_mul (by positivity) (by positivity), Real.log_mul (by positivity) (by positivity),
+      Real.log_div (by positivity) hG.ne', Real.log_rpow hr, Real.log_rpow hx, Real.log_exp]
+    ring
+  rw [← Real.exp_log hrhs, hl]
+  congr 1
+  have h1 : x / (1 / r) = x * r := by field_simp
+  rw [h1, Real.log_mul hx.ne' hr.ne', one_div, Real.log_inv]
+  ring
+
+/-- the density `Gamma.logpdf` denotes: the guard of `gammaGuard` (`x < 0` ⇒ `-inf`, i.e. density 0)
+    and the formula on `x > 0` -/
+noncomputable def gammaDensity (a r x : ℝ) : ℝ :=
+  if 0 < x then Real.exp (eval (env4 x a (1 / r) 0) (gammaLogpdf (var 0) (var 1) (var 2))) else 0
+
+theorem gamma_lintegral_eq_one (a r : ℝ) (ha : 0 < a) (hr : 0 < r) :
+    ∫⁻ x, ENNReal.ofReal (gammaDensity a r x) = 1 := by
+  rw [← lintegral_gammaPDF_eq_one ha hr]
+  apply lintegral_congr_ae
+  have h0 : ∀ᵐ x : ℝ, x ≠ 0 := by
+    rw [ae_iff]; simp
+  filter_upwards [h0] with x hx
+  rcases lt_or_gt_of_ne hx with hneg | hpos
+  · simp [gammaDensity, gammaPDF, gammaPDFReal, not_lt.mpr hneg.le, not_le.mpr hneg]
+  · simp only [gammaDensity, if_pos hpos, gammaPDF, gamma_exp_logpdf x a r hpos ha hr]
+
+noncomputable def betaDensity (a b x : ℝ) : ℝ :=
+  if 0 < x ∧ x < 1 then Real.exp (eval (env4 x a b 0) (betaLogpdf (var 0) (var 1) (var 2))) else 0
+
+theorem beta_density_eq (x a b : ℝ) (ha : 0 < a) (hb : 0 < b) :
+    betaDensity a b x = betaPDFReal a b x := by
+  unfold betaDensity betaPDFReal
+  split_ifs with h
+  · obtain ⟨hx0, hx1⟩ := h
+    have h1x : 0 < 1 - x := by linarith
+    simp only [betaLogpdf, ProbabilityTheory.beta, eval_sub, eval_add, eval_log, eval_mul, eval_lgamma, eval_ofNat,
+      eval_var, env4_0, env4_1, env4_2, Nat.cast_one]
+    have hGa := Real.Gamma_pos_of_pos ha
+    have hGb := Real.Gamma_pos_of_pos hb
+    have hGab := Real.Gamma_pos_of_pos (add_pos ha hb)
+    have hrhs : 0 < 1 / (Real.Gamma a * Real.Gamma b / Real.Gamma (a + b)) * x ^ (a - 1) * (1 - x) ^ (b - 1) := by
+      positivity
+    have hl : Real.log (1 / (Real.Gamma a * Real.Gamma b / Real.Gamma (a + b)) * x ^ (a - 1) * (1 - x) ^ (b - 1))
+        = -(Real.log (Real.Gamma a) + Real.log (Real.Gamma b) - Real.log (Real.Gamma (a + b)))
+          + (a - 1) * Real.log x + (b - 1) * Real.log (1 - x) := by
+      rw [Real.log_mul (by positivity) (by positivity), Real.log_mul (by positivity) (by positivity),
+        one_div, Real.log_inv, Real.log_div (by positivity) hGab.ne', Real.log_mul hGa.ne' hGb.ne',
+        Real.log_rpow hx0, Real.log_rpow h1x]
+    rw [← Real.exp_log hrhs, hl]
+    congr 1
+    ring
+  · rfl
+
+theorem beta_lintegral_eq_one (a b : ℝ) (ha : 0 < a) (hb : 0 < b) :
+    ∫⁻ x, ENNReal.ofReal (betaDensity a b x) = 1 := by
+  simp_rw [beta_density_eq _ a b ha hb]
+  exact lintegral_betaPDF_eq_one ha hb
+
+/-- documented InverseGamma density `(x-β)^(-α-1) exp(-γ/(x-β)) / (γ^(-α) Γ(α))` -/
+theorem invgamma_exp_logpdf (x a loc sc : ℝ) (hx : loc < x) (ha : 0 < a) (hsc : 0 < sc) :
+    Real.exp (eval (env4 x a loc sc) (invGammaLogpdf (var 0) (var 1) (var 2) (var 3)))
+      = (x - loc) ^ (-a - 1) * Real.exp (-sc / (x - loc)) / (sc ^ (-a) * Real.Gamma a) := by
+  have hy : 0 < x - loc := by linarith
+  simp only [invGammaLogpdf, eval_sub, eval_add, eval_neg, eval_log, eval_mul, eval_lgamma, eval_ofNat, eval_div,
+    eval_var, env4_0, env4_1, env4_2, env4_3, Nat.cast_one]
+  have hG := Real.Gamma_pos_of_pos ha
+  have hrhs : 0 < (x - loc) ^ (-a - 1) * Real.exp (-sc / (x - loc)) / (sc ^ (-a) * Real.Gamma a) := by positivity
+  have hl : Real.log ((x - loc) ^ (-a - 1) * Real.exp (-sc / (x - loc)) / (sc ^ (-a) * Real.Gamma a))
+      = (-a - 1) * Real.log (x - loc) + -sc / (x - loc) - (-a * Real.log sc + Real.log (Real.Gamma a)) := by
+    rw [Real.log_div (by positivity) (by positivity), Real.log_mul (by positivity) (by positivity),
+      Real.log_mul (by positivity) hG.ne', Real.log_rpow hy, Real.log_rpow hsc, Real.log_exp]
+  rw [← Real.exp_log hrhs, hl]
+  congr 1
+  rw [Real.log_div hy.ne' hsc.ne']
+  field_simp
+  ring
+
+/-- documented MHN kernel `x^(α-1) exp(-β x² + γ x)` -/
+theorem mhn_exp_logpdf_kernel (x a b c : ℝ) (hx : 0 < x) :
+    Real.exp (eval (env4 x a b c) (mhnLogpdf (var 0) (var 1) (var 2) (var 3)))
+      = x ^ (a - 1) * Real.exp (-b * x ^ 2 + c * x) := by
+  simp only [mhnLogpdf, eval_sub, eval_add, eval_log, eval_mul, eval_ofNat, eval_var, env4_0, env4_1, env4_2, env4_3,
+    Nat.cast_one]
+  rw [Real.rpow_def_of_pos hx, ← Real.exp_add]
+  congr 1
+  ring
+
+/-! ## 3./4. code-faithful negative results, cdf -/
+
+theorem sl_doc_exp (x l s β : ℝ) (hs : 0 < s) :
+    Real.exp (eval (env4 x l s β) (slConst (var 2) - slKernel (var 0) (var 1) (var 2) (var 3)))
+      = 1 / (2 * s) * Real.exp (-(Real.sqrt ((x - l) ^ 2 + β) / s)) := by
+  simp only [slConst, slKernel, eval_sub, eval_add, eval_log, eval_sqrt, eval_pow, eval_ofNat, eval_div, eval_var,
+    env4_0, env4_1, env4_2, env4_3, Nat.cast_ofNat, Nat.cast_one]
+  rw [Real.exp_sub, Real.exp_log (by positivity), Real.exp_neg]
+  field_simp
+
+theorem sl_code_eq_doc_partial (x l s b : List ℝ) (h : s.length = bcLen x [l, s, b]) :
+    slCode eval 0 x l s b = slDoc eval 0 x l s b := by
+  unfold slCode slDoc iid
+  rw [sumTo_eq_sum, sumTo_eq_sum, sumTo_eq_sum, ← h, ← Finset.sum_sub_distrib]
+  refine Finset.sum_congr rfl fun j hj => ?_
+  have hj' : j < s.length := Finset.mem_range.mp hj
+  have hb : bc (0:ℝ) s j = s.getD j 0 := by
+    unfold bc
+    split_ifs with h1
+    · have : j = 0 := by omega
+      rw [this]
+    · rfl
+  simp only [eval_sub, slConst, eval_log, eval_div, eval_ofNat, eval_var, env, List.getD_cons_succ,
+    List.getD_cons_zero, hb]
+
+theorem sl_scalar_scale_counterexample :
+    slCode eval 0 [0, 0] [0] [1] [1] ≠ slDoc eval 0 [0, 0] [0] [1] [1] := by
+  have hlog := Real.log_pos (by norm_num : (1:ℝ) < 2)
+  simp [slCode, slDoc, iid, sumTo, bcLen, env, bc, slConst, slKernel, List.range_succ]
+  intro h
+  linarith
+
+
+/-! Uniform -/
+theorem uniformVolCode_scalar_eq_doc (dim : ℕ) (l h : ℚ) :
+    uniformVolCode dim true [l] [h] = uniformVolDoc dim [l] [h] := by
+  simp only [uniformVolCode, uniformVolDoc, if_true, bc, List.length_singleton, List.getD_cons_zero]
+  induction dim with
+  | zero => rfl
+  | succ k ih => rw [List.range_succ, List.foldl_append, ← ih]; rfl
+
+theorem uniformVolCode_array_eq_doc (dim : ℕ) (lo hi : List ℚ) (h : max lo.length hi.length = dim) :
+    uniformVolCode dim false lo hi = uniformVolDoc dim lo hi := by
+  simp [uniformVolCode, uniformVolDoc, h]
+
+theorem uniform_len1_array_counterexample :
+    uniformVolCode 2 false [0] [2] = 2 ∧ uniformVolDoc 2 [0] [2] = 4 := by
+  constructor <;> simp [uniformVolCode, uniformVolDoc, bc, List.range_succ] <;> norm_num
+
+theorem uniformVolDoc_eq_prod (dim : ℕ) (lo hi : List ℚ) :
+    uniformVolDoc dim lo hi = ∏ j ∈ range dim, (bc 0 hi j - bc 0 lo j) := by
+  unfold uniformVolDoc
+  induction dim with
+  | zero => simp
+  | succ k ih => rw [List.range_succ, List.foldl_append, ih, Finset.prod_range_succ]; rfl
+
+theorem uniform_density_mul_volume (v : ℝ) (hv : 0 < v) :
+    Real.exp (eval (fun _ => v) (uniformLogpdf (var 0))) * v = 1 := by
+  simp only [uniformLogpdf, eval_log, eval_div, eval_ofNat, eval_var, Nat.cast_one]
+  rw [Real.exp_log (by positivity)]
+  field_simp
+
+theorem uniform_integral_eq_one (l h : ℝ) (hlh : l < h) :
+    ∫ _x in l..h, Real.exp (eval (fun _ => h - l) (uniformLogpdf (var 0))) = 1 := by
+  rw [intervalIntegral.integral_const, smul_eq_mul, mul_comm]
+  exact uniform_density_mul_volume (h - l) (by linarith)
+
+/-! cdf -/
+theorem cdf_product_rule {ι : Type} [Fintype ι] (μ : ι → Measure ℝ) [∀ i, SigmaFinite (μ i)] (x : ι → ℝ) :
+    Measure.pi μ (Set.pi Set.univ fun i => Set.Iic (x i)) = ∏ i, μ i (Set.Iic (x i)) :=
+  Measure.pi_pi μ _
+
+theorem cdfCombine_product_eq_prod (n : ℕ) (F : ℕ → ℝ) :
+    cdfCombine .product n F = ∏ j ∈ range n, F j := by
+  simp [cdfCombine, prodTo_eq_prod]
+
+theorem cauchy_cdf_sum_counterexample :
+    cdfRule "cauchy" = some .sum ∧ cdfCombine .sum 2 (fun _ => (1 / 2 : ℚ)) = 1
+      ∧ cdfCombine .product 2 (fun _ => (1 / 2 : ℚ)) = 1 / 4 := by
+  refine ⟨rfl, ?_, ?_⟩ <;> simp [cdfCombine, sumTo, prodTo, List.range_succ] <;> norm_num
+
+/-! MHN -/
+theorem mhn_code_eq_doc_partial (x a : ℝ) :
+    eval (env4 x a a a) (mhnLogpdf (var 0) (var 1) (var 1) (var 1))
+      = eval (env4 x a a a) (mhnLogpdf (var 0) (var 1) (var 2) (var 3)) := by
+  simp [mhnLogpdf]
+
+theorem mhn_getters_counterexample :
+    eval (env4 2 1 0 0) (mhnLogpdf (var 0) (var 1) (var 1) (var 1))
+        - eval (env4 1 1 0 0) (mhnLogpdf (var 0) (var 1) (var 1) (var 1))
+      ≠ eval (env4 2 1 0 0) (mhnLogpdf (var 0) (var 1) (var 2) (var 3))
+        - eval (env4 1 1 0 0) (mhnLogpdf (var 0) (var 1) (var 2) (var 3)) := by
+  simp [mhnLogpdf]
+  norm_num
+
+/-! ## 5. Gaussian parameterisations -/
+
+section alg
+variable {R : Type} [CommRing R]
+
+/-- `‖R z‖² = zᵀ (RᵀR) z` -/
+theorem normSqR_eq_quadForm_gram (m n : ℕ) (Rm : ℕ → ℕ → R) (z : ℕ → R) :
+    normSqR m n Rm z = quadForm n (gramOf m Rm) z := by
+  rw [normSqR_eq, quadForm_eq]
+  simp only [gramOf_eq]
+  simp only [Finset.sum_mul, Finset.mul_sum]
+  rw [Finset.sum_comm]
+  refine Finset.sum_congr rfl fun i _ => ?_
+  rw [Finset.sum_comm]
+  refine Finset.sum_congr rfl fun j _ => ?_
+  refine Finset.sum_congr rfl fun k _ => ?_
+  ring
+
+theorem quadForm_diag (n : ℕ) (p z : ℕ → R) :
+    quadForm n (fun i j => if i = j then p i else 0) z = ∑ i ∈ range n, p i * z i ^ 2 := by
+  rw [quadForm_eq]
+  refine Finset.sum_congr rfl fun i hi => ?_
+  rw [Finset.sum_eq_single i]
+  · simp; ring
+  · intro j _ hji; simp [Ne.symm hji]
+  · intro h; exact absurd hi h
+
+/-- the model's quadratic form is the matrix quadratic form -/
+theorem quadForm_eq_dotProduct (n : ℕ) (P : ℕ → ℕ → R) (z : ℕ → R) :
+    quadForm n P z
+      = (fun i : Fin n => z i) ⬝ᵥ (Matrix.of (fun i j : Fin n => P i j) *ᵥ (fun j : Fin n => z j)) := by
+  rw [quadForm_eq]
+  simp only [dotProduct, mulVec, Matrix.of_apply]
+  rw [Finset.sum_range]
+  refine Finset.sum_congr rfl fun i _ => ?_
+  rw [Finset.sum_range]
+
+variable {n : Type} [Fintype n] [DecidableEq n]
+
+/-- two precisions certified against the same covariance are equal -/
+theorem precision_unique (C P P' : Matrix n n R) (h : C * P = 1) (h' : C * P' = 1) : P = P' := by
+  have hPC : P * C = 1 := mul_eq_one_comm.mp h
+  calc P = P * (C * P') := by rw [h', mul_one]
+    _ = (P * C) * P' := by rw [Matrix.mul_assoc]
+    _ = P' := by rw [hPC, one_mul]
+
+/-- hence equal quadratic forms, i.e. equal un-normalised log-densities at every point -/
+theorem gauss_forms_agree_quad (C P P' : Matrix n n R) (h : C * P = 1) (h' : C * P' = 1) (z : n → R) :
+    z ⬝ᵥ (P *ᵥ z) = z ⬝ᵥ (P' *ᵥ z) := by
+  rw [precision_unique C P P' h h']
+
+theorem det_gram_comm (Rm : Matrix n n R) : (Rm * Rmᵀ).det = (Rmᵀ * Rm).det := by
+  rw [det_mul, det_mul, mul_comm]
+
+theorem sqrtcov_sym_partial (Rm : Matrix n n R) (h : Rmᵀ = Rm) : Rm * Rmᵀ = Rmᵀ * Rm := by
+  rw [h]
+
+end alg
+
+theorem det_cov_of_prec {n : Type} [Fintype n] [DecidableEq n] (C P : Matrix n n ℝ) (h : C * P = 1) :
+    C.det = (P.det)⁻¹ := by
+  have := congrArg Matrix.det h
+  rw [det_mul, det_one] at this
+  exact eq_inv_of_mul_eq_one_left this
+
+theorem sqrtcov_counterexample :
+    (!![1, 1; 0, 1] : Matrix (Fin 2) (Fin 2) ℚ) * (!![1, 1; 0, 1] : Matrix (Fin 2) (Fin 2) ℚ)ᵀ
+      ≠ (!![1, 1; 0, 1] : Matrix (Fin 2) (Fin 2) ℚ)ᵀ * !![1, 1; 0, 1] := by
+  intro h
+  have := congrFun (congrFun h 0) 0
+  simp [Matrix.mul_apply, Fin.sum_univ_two] at this
+
+lemma foldl_mul_replicate (n : ℕ) (a v : ℚ) : List.foldl (· * ·) a (List.replicate n v) = a * v ^ n := by
+  induction n generalizing a with
+  | zero => simp
+  | succ k ih => rw [List.replicate_succ, List.foldl_cons, ih]; ring
+
+theorem prodList_replicate (n : ℕ) (v : ℚ) : prodList (List.replicate n v) = v ^ n := by
+  unfold prodList
+  rw [foldl_mul_replicate, one_mul]
+
+theorem canon_scalar_eq_vector (form : Form) (dim : ℕ) (v : ℚ) :
+    canon form .scalar dim [[v]] = canon form .vector dim [List.replicate dim v] := by
+  simp [canon]
+
+theorem canon_sqrtcov_forms_RRt :
+    (match canon .sqrtcov .dense 2 [[1, 1], [0, 1]] with
+      | .ok c => c.C == some [[2, 1], [1, 1]] && c.P == some [[1, -1], [-1, 2]]
+      | _ => false) = true := by
+  decide +kernel
+
+/-- Lognormal, one component with variance `v`: `exp(logpdf) = N(log x; m, v) / x` -/
+theorem lognormal_exp_logpdf_1d (ρ : ℕ → ℝ) (x m v : ℝ) (hx : 0 < x) (hv : 0 < v) (vq qq : ℚ)
+    (hvq : (vq : ℝ) = v) (hq : (qq : ℝ) = (Real.log x - m) ^ 2 / v) :
+    Real.exp (eval ρ (gaussLogpdf (const 1) (const vq) (const qq)) - Real.log x)
+      = gaussianPDFReal m (Real.toNNReal v) (Real.log x) / x := by
+  simp only [gaussLogpdf, gaussianPDFReal, eval_add, eval_neg, eval_mul, eval_log, eval_pi, eval_ofNat, eval_div,
+    eval_const, Nat.cast_ofNat, Nat.cast_one, Rat.cast_one, hvq, hq, Real.coe_toNNReal _ hv.le]
+  have h2pi : (0:ℝ) < 2 * Real.pi := by positivity
+  rw [Real.exp_sub, Real.exp_log hx, Real.exp_add]
+  congr 1
+  congr 1
+  · rw [Real.sqrt_eq_rpow, ← Real.rpow_neg (by positivity), Real.rpow_def_of_pos (by positivity),
+      Real.log_mul (by positivity) hv.ne']
+    congr 1
+    ring
+  · congr 1
+    field_simp
+
+/-! ## 6. mvn form, eigenvalue branch, Markov random fields -/
+
+/-- `Gaussian.logpdf` is the log of the documented multivariate normal density
+    `(2π)^(-d/2) |Σ|^(-1/2) exp(-½ (x-μ)ᵀΣ⁻¹(x-μ))` (`rank = d`, `detCov = |Σ|`, `quad` the Mahalanobis square) -/
+theorem gauss_logpdf_eq_mvn (ρ : ℕ → ℝ) (d : ℕ) (detCov quad : ℚ) (hd : 0 < (detCov : ℝ)) :
+    Real.exp (eval ρ (gaussLogpdf (const (d : ℚ)) (const detCov) (const quad)))
+      = (2 * Real.pi) ^ (-(d : ℝ) / 2) * (detCov : ℝ) ^ (-(1 / 2 : ℝ)) * Real.exp (-(1 / 2) * (quad : ℝ)) := by
+  simp only [gaussLogpdf, eval_add, eval_neg, eval_mul, eval_log, eval_pi, eval_ofNat, eval_div, eval_const,
+    Nat.cast_ofNat, Nat.cast_one, Rat.cast_natCast]
+  have h2pi : (0:ℝ) < 2 * Real.pi := by positivity
+  rw [Real.rpow_def_of_pos h2pi, Real.rpow_def_of_pos hd, ← Real.exp_add, ← Real.exp_add]
+  congr 1
+  ring
+
+/-- eigenvalue branch (dim > MIN_DIM_SPARSE): for a symmetric positive definite matrix the sum of the
+    logs of the eigenvalues is the log of the determinant the dense branch computes -/
+theorem eig_logdet_eq_log_det {n : Type} [Fintype n] [DecidableEq n] (A : Matrix n n ℝ) (hA : A.PosDef) :
+    ∑ i, Real.log (hA.isHermitian.eigenvalues i) = Real.log A.det := by
+  rw [hA.isHermitian.det_eq_prod_eigenvalues]
+  simp only [RCLike.ofReal_real_eq_id, id]
+  rw [Real.log_prod]
+  intro i _
+  exact (hA.eigenvalues_pos i).ne'
+
+/-- and all eigenvalues pass the threshold test `s > eps` for `eps ≤ 0`… the rank it reports is the dimension -/
+theorem eig_rank_eq_card {n : Type} [Fintype n] [DecidableEq n] (A : Matrix n n ℝ) (hA : A.PosDef) :
+    (Finset.univ.filter fun i => 0 < hA.isHermitian.eigenvalues i).card = Fintype.card n := by
+  rw [Finset.filter_true_of_mem (fun i _ => hA.eigenvalues_pos i), Finset.card_univ]
+
+/-! MRFs -/
+theorem lmrf_logpdf_eq_documented (m : ℕ) (u : ℕ → ℝ) (s : ℝ) :
+    sumTo m (fun k => eval (env4 (u k) s 0 0) (lmrfComp (var 0) (var 1)))
+      = (m : ℝ) * (-(Real.log 2 + Real.log s)) - (∑ k ∈ range m, |u k|) / s := by
+  rw [sumTo_eq_sum]
+  simp only [lmrfComp, eval_sub, eval_neg, eval_add, eval_log, eval_abs, eval_div, eval_ofNat, eval_var, env4_0, env4_1,
+    Nat.cast_ofNat]
+  rw [Finset.sum_sub_distrib, Finset.sum_const, card_range, nsmul_eq_mul, Finset.sum_div]
+
+theorem lmrf_comp_exp (u s : ℝ) (hs : 0 < s) :
+    Real.exp (eval (env4 u s 0 0) (lmrfComp (var 0) (var 1))) = 1 / (2 * s) * Real.exp (-(|u| / s)) := by
+  simp only [lmrfComp, eval_sub, eval_neg, eval_add, eval_log, eval_abs, eval_div, eval_ofNat, eval_var, env4_0, env4_1,
+    Nat.cast_ofNat]
+  rw [Real.exp_sub, Real.exp_neg, ← Real.log_mul (by norm_num) hs.ne', Real.exp_log (by positivity), Real.exp_neg]
+  field_simp
+
+theorem cmrf_logpdf_eq_documented (m : ℕ) (u : ℕ → ℝ) (s : ℝ) :
+    sumTo m (fun k => eval (env4 (u k) s 0 0) (cmrfComp (var 0) (var 1) - log pi))
+      = -(m : ℝ) * Real.log Real.pi + ∑ k ∈ range m, (Real.log s - Real.log (u k ^ 2 + s ^ 2)) := by
+  rw [sumTo_eq_sum]
+  simp only [cmrfComp, eval_sub, eval_add, eval_log, eval_pow, eval_pi, eval_var, env4_0, env4_1]
+  rw [Finset.sum_sub_distrib, Finset.sum_const, card_range, nsmul_eq_mul]
+  ring
+
+theorem cmrf_comp_exp (u s : ℝ) (hs : 0 < s) :
+    Real.exp (eval (env4 u s 0 0) (cmrfComp (var 0) (var 1) - log pi)) = cauchyPDFReal 0 (Real.toNNReal s) u := by
+  simp only [cmrfComp, cauchyPDFReal_def, eval_sub, eval_add, eval_log, eval_pow, eval_pi, eval_var, env4_0, env4_1,
+    Real.coe_toNNReal _ hs.le, sub_zero]
+  have hq : 0 < u ^ 2 + s ^ 2 := by positivity
+  rw [Real.exp_sub, Real.exp_sub, Real.exp_log hs, Real.exp_log hq, Real.exp_log Real.pi_pos]
+  field_simp
+
+/-- GMRF with full declared rank `d` is the Gaussian with precision `δ·P`:
+    `det Σ = 1/(δ^d det P)`, Mahalanobis square `δ·quad` -/
+theorem gmrf_logpdf_eq_gauss (ρ : ℕ → ℝ) (d : ℕ) (δ pdet quad : ℚ) (hδ : 0 < (δ : ℝ)) (hp : 0 < (pdet : ℝ)) :
+    eval ρ (gmrfLogpdf (const (d : ℚ)) (const δ) (const pdet) (const quad))
+      = eval ρ (gaussLogpdf (const (d : ℚ)) (const (1 / (δ ^ d * pdet))) (const (δ * quad))) := by
+  simp only [gmrfLogpdf, gaussLogpdf, eval_add, eval_sub, eval_neg, eval_mul, eval_log, eval_pi, eval_ofNat, eval_div,
+    eval_const, Nat.cast_ofNat, Nat.cast_one, Rat.cast_natCast, Rat.cast_mul, Rat.cast_div, Rat.cast_pow, Rat.cast_one]
+  have h2pi : (0:ℝ) < 2 * Real.pi := by positivity
+  rw [Real.log_div one_ne_zero (by positivity), Real.log_one, Real.log_mul (by positivity) hp.ne', Real.log_pow]
+  ring
+
+theorem det_smul_prec {n : Type} [Fintype n] [DecidableEq n] (δ : ℝ) (P : Matrix n n ℝ) :
+    (δ • P).det = δ ^ Fintype.card n * P.det := Matrix.det_smul P δ
+
+/-- order 0 with periodic/neumann boundary: identity structure matrix (rank 3), declared rank 2 -/
+theorem gmrf_order0_rank_counterexample :
+    (C20.gram (C20.diffOp 0 .periodic 3)).toList = [[1, 0, 0], [0, 1, 0], [0, 0, 1]]
+      ∧ C20.declaredRank .periodic 3 = 2 ∧ C20.declaredRank .neumann 3 = 2 := by
+  decide
+
+/-! ## 7. un-normalised vs normalised -/
+
+/-- **Un-normalised vs normalised Gaussian log-density differ by a constant in the variable**
+    (`Gaussian._logupdf` vs `Gaussian.logpdf`; the constant does not contain the quadratic form). -/
 theorem gauss_logpdf_sub_logupdf (ρ : ℕ → ℝ) (r d q : RExpr) :
     eval ρ (gaussLogpdf r d q) - eval ρ (gaussLogupdf q)
       = -(1 / 2 * (eval ρ r * Real.log (2 * Real.pi) + Real.log (eval ρ d))) := by
   simp [gaussLogpdf, gaussLogupdf]
+
+example : eval (fun _ => 0) (gaussLogupdf (const 4)) = -2 := by simp [gaussLogupdf]; norm_num
 
 end CuqiVerif.C04
